@@ -1504,8 +1504,10 @@ func (c *clipperBase) checkJoinRight(e *Active, pt Point64, checkCurrX bool) {
 	if !isCollinear(e.top, pt, next.top) {
 		return
 	}
-	// edges that merely share their top vertex pass the test above trivially
-	if e.top == next.top && !isCollinear(e.bot, e.top, next.bot) {
+	// the test above only looks at the two tops and pt: it also passes for edges that merely
+	// share their top vertex, or when one edge ends on the other's line (a T-junction);
+	// joining those drops the region between them, so require the whole edges to be collinear
+	if !isCollinear(e.bot, e.top, next.bot) || !isCollinear(e.bot, e.top, next.top) {
 		return
 	}
 
@@ -1545,8 +1547,10 @@ func (c *clipperBase) checkJoinLeft(e *Active, pt Point64, checkCurrX bool) {
 	if !isCollinear(e.top, pt, prev.top) {
 		return
 	}
-	// edges that merely share their top vertex pass the test above trivially
-	if e.top == prev.top && !isCollinear(e.bot, e.top, prev.bot) {
+	// the test above only looks at the two tops and pt: it also passes for edges that merely
+	// share their top vertex, or when one edge ends on the other's line (a T-junction);
+	// joining those drops the region between them, so require the whole edges to be collinear
+	if !isCollinear(e.bot, e.top, prev.bot) || !isCollinear(e.bot, e.top, prev.top) {
 		return
 	}
 
